@@ -6,6 +6,12 @@ COMMON_TRUST = [
 ]
 CODEC_RULE = "every message type x decoding parameter (Prio3 Count/Sum/Histogram/SumVec with 2-5 aggregators, Poplar1 with several bit lengths incl. 0, Prio2, ping-pong, primitives): honest encodings from real protocol runs, truncations, extensions, single-byte mutations, every alphabet value in first/last byte, all strings of length <= 2-3 over {00,01,7f,80,fe,ff}, header extremes (level 0xFFFF, counts 2^32-1, unknown tags), random strings; non-trivial = every case (each is a decode of a distinct byte string);"
 PROPS = {
+    "C14": {
+        "modules": ["PrioProofs.Props.C14"],
+        "rule": "ParallelSum vs ParallelSumMultithreaded over Mul on Field64 and Field128: chunk counts {1,2,3,5,16,33} (thorough also 4,8,100) x wire lengths {1,2,4,16} (thorough up to 256), random polynomials, each with 8 (thorough 14) split trees incl. sequential, fully unbalanced, empty sides; thread pools of 1,2,3,8,16 (thorough 1-32) threads; malformed calls (short/long output, missing/extra/ragged/no polynomials, wire length beyond the NTT limit); whole Prio3 runs serial vs multithreaded for SumVec, Histogram, MultihotCountVec, L1BoundSum with (len, chunk) in {(1,1),(6,1),(6,2),(7,3),(5,16),(40,7),(64,8)} x (aggregators, proofs) in {(2,1),(3,2)} (thorough also (2,3)) x every pool; non-trivial = all;",
+        "trusted": COMMON_TRUST + ["rayon's contract for fold/reduce on an indexed parallel iterator (contiguous, order-preserving segments; identity elements may be inserted)"],
+        "assumptions": ["the schedule actually taken by rayon is not observable; the theorem quantifies over all of them"],
+    },
     "C16": {
         "modules": ["PrioProofs.Props.C16"],
         "rule": "constructors of Sum, Average, Histogram, MultihotCountVec, SumVec, L1BoundSum over Field64 and Field128 on the argument lattice {0,1,2,3,8,1000,2^32-2,2^32-1,2^32,2^63-1,2^63,usize::MAX-1,usize::MAX} (thorough: 26 values incl. random ones; full cube for the 3-parameter constructors) x integer bounds {0,1,2,3,255,256,p-2,p-1,p,p+1,MAX}; accepted small instances must prove and verify their extreme measurements; encode_measurement on in-range, boundary, out-of-range and wrong-length measurements; Prio3::new on (aggregators, proofs) incl. 0, 254, 255; Prio2::new on 24 (thorough 64) lengths up to usize::MAX; Prio3 verify_init / verifier_shares_to_message / verify_next on hand-built leader shares (measurement or proofs empty, short, long, one proof of many), missing or unexpected blinds and parts, shares, states and messages of an instance with the opposite joint-randomness use, aggregator ids up to usize::MAX, share counts 0..512+n incl. 256+n; Prio2, Poplar1 (zero bits, wrong heights, levels beyond the tree, depth 40000) and DP constructors by oracle; non-trivial = all;",
